@@ -193,6 +193,18 @@ def w_types(arg):
                 try:
                     b + a; acc.check(a.j == b.i and b.j == a.i, 'mismatched-endpoints-raise', 'no ArithmeticError', sig='err')
                 except ArithmeticError: pass
+            # every operation is defined exactly where documented: a - c needs equal final sites, a ^ c equal initial sites, a + c a.j == c.i;
+            # where defined the result is a sane state, elsewhere ArithmeticError (a silently returned state would not be a pair state)
+            l_, m_ = (int(x) for x in rng.integers(0, 2, 2))
+            c_ = stars.PairState.fromcrys_latt(hcp, 0, (l_, m_), rng.integers(-2, 3, 3))
+            for opname, fn_, defined in (('a-c', lambda: a - c_, a.j == c_.j), ('a^c', lambda: a ^ c_, a.i == c_.i), ('a+c', lambda: a + c_, a.j == c_.i)):
+                try:
+                    r_ = fn_(); raised = False
+                except ArithmeticError:
+                    raised = True
+                acc.check(raised == (not defined) and (raised or r_.__sane__(hcp, 0)), 'operation-defined-exactly-where-documented',
+                          '%s with a=(%d,%d), c=(%d,%d): %s' % (opname, a.i, a.j, c_.i, c_.j, 'raised' if raised else 'returned a state that is %ssane' % ('' if r_.__sane__(hcp, 0) else 'not ')), sig=('defd', opname, defined))
+            if a.j == c_.j: acc.check(full(a - c_, a + (-c_)), 'subtraction-is-addition-of-the-negative', '', sig='subneg')
             zero = stars.PairState.zero(j, 3)
             acc.check((a + zero) == a and (stars.PairState.zero(i, 3) + a) == a, 'zero-is-a-unit', '', sig='unit')
     elif kind == 'ClusterSite+Cluster':
